@@ -1495,6 +1495,71 @@ impl Property for C12 {
                 }
             }
         }
+        // a copy of a recorded file somewhere else (another work directory), with one byte
+        // changed: its full path still ends in the recorded name, so it resolves to the same
+        // entry - and must be judged by ITS content, whatever path the entry was built from
+        for (fi, f) in sc.files.iter().enumerate() {
+            if f.content.is_empty() || f.content.len() > 200_000 || has_raw(&f.name) {
+                continue;
+            }
+            let copy_model = format!("{}/elsewhere/{}", sd.root().display(), f.name);
+            if model_find(&recorded, &copy_model).map(|r| r.as_str()) != Some(f.name.as_str()) {
+                continue;
+            }
+            let Some((a, want_hash)) = recs[fi].checksums.first().cloned() else { continue };
+            let mut changed = f.content.clone();
+            let at = changed.len() / 2;
+            changed[at] = if changed[at] == b'#' { b'%' } else { b'#' };
+            if model_digest(&f.name, a, &changed) == want_hash {
+                continue; // the changed byte lies in a line the patch filter drops
+            }
+            let copy = sd.root().join("elsewhere").join(os(&f.name));
+            if let Some(parent) = copy.parent() {
+                std::fs::create_dir_all(parent).unwrap_or_else(|e| panic!("SIM-HARNESS: mkdir: {}", e));
+            }
+            std::fs::write(&copy, &changed).unwrap_or_else(|e| panic!("SIM-HARNESS: write: {}", e));
+            ctx.fault("changed_copy_elsewhere");
+            let got = distinfo.verify_checksum(&copy, ALGS[a]);
+            ensure!(
+                matches!(got, Err(DistinfoError::Checksum(..))),
+                "checksum-should-fail",
+                "{}: a copy in another directory with byte {} changed: verify_checksum({}) gave {}",
+                f.name,
+                at,
+                ALG_NAMES[a],
+                shape(&got)
+            );
+            if let Ok(e) = distinfo.find_entry(&copy) {
+                let got = e.verify_checksum(&copy, ALGS[a]);
+                ensure!(
+                    matches!(got, Err(DistinfoError::Checksum(..))),
+                    "checksum-should-fail",
+                    "{}: a copy in another directory with byte {} changed: Entry::verify_checksum({}) gave {}",
+                    f.name,
+                    at,
+                    ALG_NAMES[a],
+                    shape(&got)
+                );
+            }
+            break;
+        }
+        // a relative path is looked up as it is written: the directory the process happens
+        // to run in is not part of it (recorded: "<name of the current directory>/zz-rel.tgz";
+        // asked for: "zz-rel.tgz")
+        if let Some(cwd_name) = std::env::current_dir().ok().and_then(|d| d.file_name().map(|n| n.to_os_string())) {
+            let mut di = Distinfo::new();
+            let rec_name = std::path::Path::new(&cwd_name).join("zz-rel.tgz");
+            di.insert(Entry::new(rec_name.clone().into_os_string(), rec_name, vec![Checksum::new(ALGS[3], "0".repeat(HEX_LEN[3]))], Some(1)));
+            ctx.probe("relative-path-looked-up");
+            let got = di.find_entry(std::path::Path::new("zz-rel.tgz"));
+            ensure!(
+                matches!(got, Err(DistinfoError::NotFound)),
+                "unrecorded-path-found",
+                "find_entry(\"zz-rel.tgz\") on a record of {:?} only: resolved to {:?} (the current directory leaked into the lookup)",
+                cwd_name,
+                got.map(|e| e.filename.clone()).map_err(|e| e.to_string())
+            );
+        }
         if !sc.faults.is_empty() {
             ctx.nontrivial = true;
         }
